@@ -160,6 +160,10 @@ func verifyCMS(der []byte, content []byte, wantLeaf, wantIntermediate *x509.Cert
 		restAttrs = r
 	}
 	for _, a := range attrs {
+		// RFC 5652 section 5.3: attrValues is a SET OF AttributeValue
+		if a.Values.Class != asn1.ClassUniversal || a.Values.Tag != asn1.TagSet || !a.Values.IsCompound {
+			return res, fmt.Errorf("the values of signed attribute %v are not encoded as a SET (class %d, tag %d)", a.Type, a.Values.Class, a.Values.Tag)
+		}
 		switch {
 		case a.Type.Equal(oidContentType):
 			var oid asn1.ObjectIdentifier
